@@ -315,6 +315,10 @@ pub enum Op {
     Special(Vec<(String, f64)>),
     Restart,
     CloneDiscard,
+    /// F-outside on a real state: the state goes through its JSON form with one parameter rewritten
+    /// to an equivalent or at least valid value OUTSIDE its declared range ("x+1", "y-1",
+    /// "angle-2pi", "angle+2pi", "cell-obtuse"); kept only if the edited state still has a finite score
+    JsonEdit(String),
 }
 
 impl Op {
@@ -327,6 +331,7 @@ impl Op {
             ),
             Op::Restart => J::obj().set("op", J::str("restart")),
             Op::CloneDiscard => J::obj().set("op", J::str("clone_discard")),
+            Op::JsonEdit(k) => J::obj().set("op", J::str("json_edit")).set("edit", J::str(k.clone())),
         }
     }
     pub fn from_json(j: &J) -> Result<Op, String> {
@@ -344,6 +349,7 @@ impl Op {
             }
             Some("restart") => Ok(Op::Restart),
             Some("clone_discard") => Ok(Op::CloneDiscard),
+            Some("json_edit") => Ok(Op::JsonEdit(j.get("edit").and_then(|e| e.as_str()).ok_or("json_edit.edit")?.to_string())),
             other => Err(format!("unknown op {:?}", other)),
         }
     }
@@ -466,6 +472,7 @@ pub struct ChainEvents<S: Crystal> {
     pub specials_kept: u64,
     pub specials_dropped: u64,
     pub restarts: u64,
+    pub json_edits: u64,
     pub restart_error: Option<String>,
 }
 
@@ -553,6 +560,58 @@ pub fn apply_special<S: Crystal>(state: &S, writes: &[(String, f64)]) -> Result<
     Ok((kept, dropped))
 }
 
+/// rewrite one parameter in the state's JSON form (see Op::JsonEdit); None = edit not applicable
+/// or the edited state has no finite score
+pub fn json_edit<S: Crystal>(state: &S, kind: &str) -> Result<Option<S>, String> {
+    use std::f64::consts::PI;
+    let text = to_json_text(state)?;
+    let mut j = json::parse(&text)?;
+    let fam = j.path(&["cell", "family"]).and_then(|x| x.as_str()).unwrap_or("").to_string();
+    fn site0(j: &mut J) -> Option<&mut J> {
+        match j {
+            J::Obj(m) => m.iter_mut().find(|e| e.0 == "occupied_sites").and_then(|e| match &mut e.1 {
+                J::Arr(a) => a.get_mut(0),
+                _ => None,
+            }),
+            _ => None,
+        }
+    }
+    fn cell(j: &mut J) -> Option<&mut J> {
+        match j {
+            J::Obj(m) => m.iter_mut().find(|e| e.0 == "cell").map(|e| &mut e.1),
+            _ => None,
+        }
+    }
+    let edit = |obj: Option<&mut J>, field: &str, f: &dyn Fn(f64) -> f64| -> bool {
+        if let Some(o) = obj {
+            if let Some(v) = o.get(field).and_then(|x| x.as_f64()) {
+                o.put(field, J::num(f(v)));
+                return true;
+            }
+        }
+        false
+    };
+    let done = match kind {
+        "x+1" => edit(site0(&mut j), "x", &|v| v + 1.0),
+        "y-1" => edit(site0(&mut j), "y", &|v| v - 1.0),
+        "angle-2pi" => edit(site0(&mut j), "angle", &|v| v - 2.0 * PI),
+        "angle+2pi" => edit(site0(&mut j), "angle", &|v| v + 2.0 * PI),
+        "cell-obtuse" if fam == "Monoclinic" => edit(cell(&mut j), "angle", &|v| PI - v),
+        _ => false,
+    };
+    if !done {
+        return Ok(None);
+    }
+    let edited: S = match serde_json::from_str::<S>(&j.to_string()) {
+        Ok(s) => s,
+        Err(_) => return Ok(None),
+    };
+    match edited.score() {
+        Some(x) if x.is_finite() => Ok(Some(edited)),
+        _ => Ok(None),
+    }
+}
+
 pub fn restart<S: Crystal>(state: &S) -> Result<S, String> {
     let text = to_json_text(state)?;
     serde_json::from_str::<S>(&text).map_err(|e| format!("deserialise: {}", e))
@@ -579,6 +638,7 @@ pub fn run_chain<S: Crystal>(initial: S, chain: &[Op], monitor: Box<dyn Monitor<
         specials_kept: 0,
         specials_dropped: 0,
         restarts: 0,
+        json_edits: 0,
         restart_error: None,
     };
     let mut cur = initial;
@@ -620,6 +680,17 @@ pub fn run_chain<S: Crystal>(initial: S, chain: &[Op], monitor: Box<dyn Monitor<
                         ev.restart_error = Some(e);
                         break;
                     }
+                }
+            }
+            Op::JsonEdit(kind) => {
+                let before = cur.clone();
+                match json_edit(&cur, kind)? {
+                    Some(s) => {
+                        ev.json_edits += 1;
+                        ev.boundaries.push(Boundary { op: k, kind: "json_edit", before, after: s.clone(), obs: vec![], x0: vec![], ret: vec![], cfg: None });
+                        cur = s;
+                    }
+                    None => {}
                 }
             }
             Op::CloneDiscard => {
@@ -969,6 +1040,7 @@ pub fn base_out<S: Crystal>(sc: &Scenario, ev: &ChainEvents<S>) -> Result<RunOut
     out.count("fault.F-special(kept)", ev.specials_kept);
     out.count("fault.F-special(dropped: state became invalid)", ev.specials_dropped);
     out.count("fault.F-restart", ev.restarts);
+    out.count("fault.F-outside(real state with a parameter rewritten outside its range)", ev.json_edits);
     out.count("probe.stage_panicked", ev.panic.is_some() as u64);
     out.count(&format!("probe.group/{}", sc.group), 1);
     out.count(
@@ -986,6 +1058,6 @@ pub fn base_out<S: Crystal>(sc: &Scenario, ev: &ChainEvents<S>) -> Result<RunOut
         1,
     );
     let moved = ev.boundaries.iter().any(|b| b.kind == "stage" && basis_bits(&b.before) != basis_bits(&b.after));
-    out.nontrivial = moved || clamp > 0 || ev.specials_kept > 0 || ev.restarts > 0;
+    out.nontrivial = moved || clamp > 0 || ev.specials_kept > 0 || ev.restarts > 0 || ev.json_edits > 0;
     Ok(out)
 }
